@@ -438,14 +438,25 @@ def run_quantities(acc, nt):
     unitsets = [{"meter": 1}, {"meter": 1, "second": -2}, {"second": -1}, {}, {"kilogram": 1, "meter": 2, "second": -2}]
     for units in unitsets:
         ucont = uc(ureg, nt, units)
-        for ms in MAGS:
+        kinds = [("", lambda x: x)]
+        if nt == "float":
+            import numpy as np
+
+            # a NumPy scalar and a 0-d array are scalar magnitudes too: they are rendered like the float they hold
+            kinds += [("np.float64", np.float64), ("0-d ndarray", lambda x: np.array(float(x)))]
+        for (ms, (kname, wrap)) in itertools.product(MAGS, kinds):
             m = mag_value(ms, nt)
+            if kname and (isinstance(m, int) or ms in ("1e30",)):
+                continue
             for mspec in MSPECS:
                 if isinstance(m, Fraction) and mspec:
                     continue  # Fraction.__format__ accepts no float presentation types before Python 3.12 semantics settled
+                if kname and not mspec:
+                    continue  # the repr-like default rendering of NumPy objects is NumPy's business
                 for uspec in ("", "D", "C", "P", "~P", "~", "H", "L"):
                     spec = mspec + uspec
-                    q = ureg.Quantity(m, ucont)
+                    q = ureg.Quantity(wrap(m), ucont)
+                    ms = ms if not kname else ms.split(" [")[0] + f" [{kname}]"
                     before = (repr(q._magnitude), snapshot(q))
                     o = render(lambda: format(q, spec))
                     acc.ev()
@@ -572,7 +583,7 @@ MANIFEST = {
     "Decimal and Fraction registries, is rendered and read back by an independent reader for that format (default, compact, pretty, HTML, LaTeX, siunitx): the recovered {name-or-symbol: exponent} map must "
     "equal the unit, with every exponent on the correct side; plain-text renderings must parse back to an equal unit; 10 magnitudes x 6 magnitude specs x 8 unit specs as quantities (magnitude substring, "
     "'1 / x' joining, str(q) round trip); default_format x separate_format_defaults x sort function settings. Formatting must never raise nor alter the object.",
-    "note": "Trusted: the readers (~150 lines) and R1's symbol table. HTML/LaTeX/siunitx are checked for denotation only (pint does not parse them back). Babel/locale formatting, ndarray magnitudes and "
+    "note": "NumPy scalars and 0-d arrays count as scalar magnitudes (rendered like the float they hold under every magnitude spec). Trusted: the readers (~150 lines) and R1's symbol table. HTML/LaTeX/siunitx are checked for denotation only (pint does not parse them back). Babel/locale formatting, ndarray magnitudes and "
     "Measurement formats (C19) are outside this check; siunitx non-integer exponents are compared at the 3 decimals it prints.",
     "ref": "DESIGN.md §4 C09",
 }
